@@ -259,6 +259,21 @@ def oracle(case, r):
         return V
     for (t, cp, granted) in r.get("probe_mismatch", [])[:1]:
         V.append(("C12", "probe", "can_put() = %s at %s but a reservation issued in the same instant was %s" % (cp, t, "granted" if granted else "not granted")))
+    if not any(isinstance(g, dict) for g in case["producers"]):
+        # first come, first served at the entrance (item numbers are handed out in request order)
+        adm = sorted(i for i in items if "admit" in items[i])
+        for a, b in zip(adm, adm[1:]):
+            if items[b]["admit"] < items[a]["admit"]:
+                V.append(("C05", "fcfs-entry", "entry request %d (made at %s) was granted at %s, before the earlier request %d (made at %s, granted at %s)" %
+                          (b, items[b]["req"], items[b]["admit"], a, items[a]["req"], items[a]["admit"])))
+                break
+        waiting = [i for i in items if "admit" not in items[i]]
+        for a in waiting:
+            later = [b for b in adm if b > a]
+            if later:
+                V.append(("C05", "fcfs-entry", "entry request %d (made at %s) was granted at %s while the earlier request %d (made at %s) was never granted" %
+                          (later[0], items[later[0]]["req"], items[later[0]]["admit"], a, items[a]["req"])))
+                break
     ids = sorted(i for i in items if "put" in items[i])
     ids.sort(key=lambda i: (items[i]["put"], i))
     outs = [i for i in ids if "out" in items[i]]
@@ -323,7 +338,10 @@ def oracle(case, r):
                 if n > 0:
                     p = items[ids[n - 1]]
                     ideal = max(ideal, p["out"] + u) if "out" in p else None
-                if ideal is not None and it["ready"] < ideal:
+                if n > 0 and "out" in items[ids[n - 1]] and it["ready"] < items[ids[n - 1]]["out"]:
+                    V.append(("C13", "acc-exit-shared", "accumulating: item %d reached the exit at %s while item %d was still waiting there (it left at %s): the two overlap" %
+                              (i, it["ready"], ids[n - 1], items[ids[n - 1]]["out"])))
+                elif ideal is not None and it["ready"] < ideal:
                     V.append(("C13", "acc-overlap", "accumulating: item %d reached the exit at %s, less than one item length (%s) after item %d left at %s" %
                               (i, it["ready"], u, ids[n - 1], items[ids[n - 1]].get("out"))))
                 if ideal is not None and it["ready"] > ideal:
@@ -357,7 +375,8 @@ def gen_case(rng, nprod=None, kind=None):
     else:
         case.update(cap=rng.choice([1, 2, 3, 4, 5]), delay=rng.choice([1, 1, 2, 0.5]))
         u = case["delay"]
-    style = rng.choice(["regular", "bursty", "irregular", "irregular", "fine", "poll"])
+    style = rng.choice(["regular", "bursty", "irregular", "irregular", "fine", "poll", "meet", "meet"])
+    D = (case["length"] / case["speed"]) if kind == "cont" else case["cap"] * case["delay"]
     nprod = nprod or (1 if rng.random() < 0.8 else 2)
     prods = []
     for _ in range(nprod):
@@ -367,6 +386,10 @@ def gen_case(rng, nprod=None, kind=None):
             continue
         if style == "fine":
             gaps = [rng.randrange(0, 257) / 64 for _ in range(n)]
+        elif style == "meet":
+            # arrivals that coincide with an earlier item reaching the exit (one transit time D later), with its
+            # release, or with the end of its entry (one slot time u later)
+            gaps = [rng.choice([0, 1, u, 2 * u])] + [rng.choice([D, D, D, u, D + u, 2 * u, D - u if D > u else D]) for _ in range(n - 1)]
         elif style == "regular":
             g = rng.choice([1, 2, 3]) * u
             gaps = [g] * n
@@ -379,6 +402,9 @@ def gen_case(rng, nprod=None, kind=None):
     if style == "fine":
         case["services"] = [rng.choice([0, 0, rng.randrange(0, 321) / 64]) for _ in range(rng.randrange(1, 5))]
         case["first_get"] = rng.choice([0, rng.randrange(0, 513) / 64])
+    elif style == "meet":
+        case["services"] = [rng.choice([0, u, D, 2 * D, D + u, 5, 20]) for _ in range(rng.randrange(1, 4))]
+        case["first_get"] = rng.choice([0, 0, D + 2 * u, 2 * D + u, 3 * D, 20])
     else:
         case["services"] = [rng.choice([0, 0, 0, 1, 2, 5, 0.5, 0.25]) for _ in range(rng.randrange(1, 5))]
         case["first_get"] = rng.choice([0, 0, 3, 7, 2.5])
